@@ -28,17 +28,17 @@ fn builder_new_is_empty() {
     assert!(b.finish().types.is_empty());
 }
 
-/// BOUNDED (<= 3 registrations out of 3 distinct values): finish lists the values at their indices
+/// BOUNDED (<= 2 registrations out of 2 distinct values): finish lists the values at their indices
 #[kani::proof]
-#[kani::unwind(6)]
+#[kani::unwind(5)]
 fn builder_finish_lists_values() {
     let mut b = PortableRegistryBuilder::new();
     let n: usize = kani::any();
-    kani::assume(n <= 3);
+    kani::assume(n <= 2);
     let mut i = 0;
     while i < n {
         let k: u8 = kani::any();
-        kani::assume(k < 3);
+        kani::assume(k < 2);
         let announced = b.next_type_id();
         let id = b.register_type(prim_type(k));
         assert!(id <= announced, "an id is the announced next id or an earlier one");
